@@ -546,7 +546,7 @@ def _exc(e):
 _counter = [0]
 
 
-def run_impl(case):
+def _run_impl(case):
     from tornado.options import OptionParser
     tymap = {"str": str, "int": int, "float": float, "bool": bool, "datetime": datetime.datetime, "timedelta": datetime.timedelta, None: None}
     p = OptionParser()
@@ -574,6 +574,8 @@ def run_impl(case):
                         os.unlink(path)
                     outs.append("U")
             except (Exception, SystemExit) as e:
+                if type(e).__name__ == "Hang":
+                    raise
                 outs.append(_exc(e))
     finally:
         sys.stderr = saved
@@ -588,6 +590,19 @@ def _wire_op(op):
     if op[0] == "cmdline":
         return [atom("cmdline"), list(op[1])]
     return [atom("config"), [[k, wire_val(v)] for k, v in op[1]]]
+
+def run_impl(case):
+    """One retry when the runner's wall-clock watchdog fires: on a heavily loaded machine a trivial case can stall
+    (file I/O, scheduling) for minutes; a genuinely looping implementation fails the retry as well and is reported."""
+    import signal
+    try:
+        return _run_impl(case)
+    except BaseException as e:
+        if type(e).__name__ != "Hang":
+            raise
+        signal.setitimer(signal.ITIMER_REAL, CASE_TIMEOUT)
+        return _run_impl(case)
+
 
 
 def model_requests(case, impl):
